@@ -178,6 +178,23 @@ PROPS = {
                        "response equals the path-style twin's response.",
         "assumptions": ["Location of CompleteMultipartUpload, request ids and timestamps are excluded from the response comparison"],
     },
+    "C13": {
+        "title": "Version listings show each version once, flag the true latest, page completely",
+        "harness": "c13",
+        "model": "Model/MemVersions.v list_versions / scan_versions / take_versions / obj_versions over Model/Mem.v",
+        "rule": "memory backend: 60 (quick) / 800 (thorough) seeded histories as in C05 (never-versioned, enabled from the start, mixed "
+                "enable/suspend; puts, deletes, delete-version, multi-delete) over 2..5 keys incl. keys sharing 'p/'; then "
+                "ListObjectVersions unpaginated (followed by an unqualified GET of every key, so IsLatest is checked against what a read "
+                "resolves to), walks for max-keys 1..n+1 over four prefix/delimiter combinations following (NextKeyMarker, "
+                "NextVersionIdMarker) checked by a model-independent oracle (bound, every entry once, concatenation = unpaginated) and "
+                "page by page against the model, and single pages from marker pairs naming existing versions. distinct_nontrivial = "
+                "distinct walks.",
+        "explanation": "Theorems over the version-listing model (exactness w.r.t. the stored versions, one IsLatest per key = the "
+                       "current version, paging). Tie: every page from the Go handlers vs the extracted model, version ids through "
+                       "the bijection, plus the walk oracle on the implementation's pages.",
+        "assumptions": ["entries of one key are listed in ascending version-id order (oldest first), as the implementation does; the property fixes no order within a key"],
+        "timeout": {"quick": 900, "thorough": 3000},
+    },
 }
 
 # properties whose check is not built yet are listed so the manifest stays honest
